@@ -13,3 +13,7 @@ package sunlight
 
 //@ func sunlight.NewRFC6962Verifier props C11
 //@   defines ret1 == nil ==> ret0 != nil && isRFCVerifier(ret0, name, key)
+
+//@ pure func sigTimestamp(sig note.Signature) int
+//@ func sunlight.RFC6962SignatureTimestamp props C11 C20
+//@   defines ret1 == nil ==> ret0 == sigTimestamp(sig)
